@@ -22,6 +22,7 @@ type agg struct {
 	// conc
 	episodes, calls, switches, preempt, blocked, gcs, concurrent int
 	spawned, leaked                                              int
+	simNs, simJumps                                              int64
 	families, overlap, fnCalls                                   map[string]int
 	schedSigs                                                    map[string]bool
 }
@@ -100,6 +101,8 @@ func (a *agg) addIO(s map[string]interface{}) {
 		}
 	}
 	a.perConfig[fmt.Sprint(s["config"])] += int(num(s, "cases"))
+	a.simNs += int64(num(s, "sim_ns"))
+	a.simJumps += int64(num(s, "sim_jumps"))
 	if w := num(s, "wall_s"); w > a.wall {
 		a.wall = w
 	}
@@ -143,7 +146,9 @@ func (a *agg) evidenceIO(prop, tier string, seed uint64, spec propSpec, cfgs []C
 		"exhaustive":                 false,
 		"library_calls":              a.libCalls,
 		"simulated_steps":            a.points,
-		"simulated_time_note":        "the library has no clock; simulated time is counted in logical steps (instrumentation points executed inside library calls)",
+		"simulated_time_note":        "the pinned library has no clock: progress is counted in logical steps (instrumentation points executed inside library calls); slow reads of the entropy device advance a discrete-event clock that a changed tree's timers and sleeps would run on",
+		"simulated_clock_seconds":    float64(a.simNs) / 1e9,
+		"simulated_clock_jumps":      a.simJumps,
 		"cases_per_hour":             int(perHour),
 		"fault_kinds_fired":          a.fired,
 		"probes_hit":                 a.probes,
@@ -263,6 +268,8 @@ func (a *agg) addConc(s map[string]interface{}) {
 		}
 	}
 	a.perConfig[fmt.Sprint(s["config"])] += int(num(s, "episodes"))
+	a.simNs += int64(num(s, "sim_ns"))
+	a.simJumps += int64(num(s, "sim_jumps"))
 	if w := num(s, "wall_s"); w > a.wall {
 		a.wall = w
 	}
@@ -291,7 +298,9 @@ func (a *agg) evidenceConc(tier string, seed uint64, spec propSpec, cfgs []strin
 		"schedule_families":                 a.families,
 		"overlap_matrix":                    a.overlap,
 		"simulated_steps":                   a.points,
-		"simulated_time_note":               "the library has no clock; simulated time is counted in logical steps (instrumentation points executed inside library calls)",
+		"simulated_time_note":               "the pinned library has no clock: progress is counted in logical steps; slow reads of the entropy device advance a discrete-event clock that a changed tree's timers and sleeps would run on",
+		"simulated_clock_seconds":           float64(a.simNs) / 1e9,
+		"simulated_clock_jumps":             a.simJumps,
 		"episodes_per_hour":                 int(perHour),
 		"fault_kinds_fired":                 a.fired,
 		"episodes_per_configuration":        a.perConfig,
